@@ -129,11 +129,12 @@ Definition occ_views (u : N) (vs : list (N * list file)) : N :=
 Definition ij_files (o : option import_job) : list file := match o with Some j => ij_snap j | None => [] end.
 Definition mj_files (o : option merge_job) : list file := match o with Some j => mj_snap j | None => [] end.
 Definition tj_files (o : option tag_job) : list file := match o with Some j => tj_snap j | None => [] end.
+Definition cj_files (o : option conv_job) : list file := match o with Some j => cj_snap j | None => [] end.
 
 (* number of holders of file u: the service list, the views, the jobs *)
 Definition holders (st : state) (u : N) : N :=
   occ u (indexes st) + occ_views u (views st) + occ u (ij_files (ijob st))
-  + occ u (mj_files (mjob st)) + occ u (tj_files (tjob st)).
+  + occ u (mj_files (mjob st)) + occ u (tj_files (tjob st)) + occ u (cj_files (cjob st)).
 
 (* files written by a job body whose completion has not run yet *)
 Definition pending_files (st : state) : list file :=
@@ -255,7 +256,7 @@ Proof. intros. rewrite (occ_firstn_skipn u n fs). lia. Qed.
 Lemma occ_firstn_le : forall u n fs, occ u (firstn n fs) <= occ u fs.
 Proof. intros. rewrite (occ_firstn_skipn u n fs). lia. Qed.
 
-Ltac hsimpl := repeat progress (unfold holders, pending_files, ij_files, mj_files, tj_files, copy_from in *; simpl in *).
+Ltac hsimpl := repeat progress (unfold holders, pending_files, ij_files, mj_files, tj_files, cj_files, copy_from in *; simpl in *).
 
 Lemma skipn_add : forall (A : Type) off n (l : list A), skipn n (skipn off l) = skipn (off + n) l.
 Proof.
@@ -307,20 +308,36 @@ Proof.
     destruct H; [left|right; auto]. lia.
 Qed.
 
+Lemma start_converter_ok : forall x st, invx x st -> invx x (start_converter st).
+Proof.
+  intros x st I. unfold start_converter.
+  destruct (cjob st) eqn:Hc; [exact I|].
+  destruct (cwork st); [|exact I].
+  destruct I as [C F P1 Q IS MS].
+  constructor; simpl; auto.
+  - refine (lock_ok _ _ _ _ _ _ _ _ _ _ C).
+    + intros u. hsimpl. rewrite Hc. simpl. lia.
+    + intros u. reflexivity.
+    + intros u. hsimpl. lia.
+  - intros u H. apply F. hsimpl. rewrite Hc in *. simpl in *.
+    destruct H; [left|right; auto]. lia.
+Qed.
+
 Lemma start_merge_ok : forall x st, invx x st -> invx x (start_merge st).
 Proof.
   intros x st I. unfold start_merge.
   destruct (mjob st) eqn:Hm; [exact I|].
   destruct (tjob st) eqn:Ht; [exact I|].
+  destruct (cjob st) eqn:Hc; [exact I|].
   destruct (unc st =? 0); [|exact I].
   destruct (find_merge (nunm st) (indexes st)) as [i|]; [|exact I].
   destruct I as [C F P1 Q IS MS].
   constructor; simpl; auto.
   - refine (lock_ok _ _ _ _ _ _ _ _ _ _ C).
-    + intros u. hsimpl. rewrite Hm, Ht. simpl. lia.
+    + intros u. hsimpl. rewrite Hm, Ht, Hc. simpl. lia.
     + intros u. hsimpl. rewrite Hm. reflexivity.
     + intros u. hsimpl. pose proof (occ_skipn_le u i (indexes st)). lia.
-  - intros u H. apply F. hsimpl. rewrite Hm, ?Ht in *. simpl in *.
+  - intros u H. apply F. hsimpl. rewrite Hm, ?Ht, ?Hc in *. simpl in *.
     pose proof (occ_skipn_le u i (indexes st)).
     destruct H; [left|right; auto]. lia.
   - hsimpl. rewrite Hm in P1. exact P1.
@@ -330,12 +347,13 @@ Qed.
 
 Lemma invx_same : forall x st st',
   indexes st' = indexes st -> used st' = used st -> disk st' = disk st -> views st' = views st ->
-  ijob st' = ijob st -> mjob st' = mjob st -> tj_files (tjob st') = tj_files (tjob st) -> next_uid st' = next_uid st ->
+  ijob st' = ijob st -> mjob st' = mjob st -> tj_files (tjob st') = tj_files (tjob st) ->
+  cj_files (cjob st') = cj_files (cjob st) -> next_uid st' = next_uid st ->
   (ijob st' <> None -> queue st' <> []) ->
   invx x st -> invx x st'.
 Proof.
-  intros x st st' E1 E2 E3 E4 E5 E6 E7 E8 Q [C F P1 _ IS MS].
-  constructor; unfold holders, pending_files in *; rewrite ?E1, ?E2, ?E3, ?E4, ?E5, ?E6, ?E7, ?E8; auto.
+  intros x st st' E1 E2 E3 E4 E5 E6 E7 E9 E8 Q [C F P1 _ IS MS].
+  constructor; unfold holders, pending_files in *; rewrite ?E1, ?E2, ?E3, ?E4, ?E5, ?E6, ?E7, ?E8, ?E9; auto.
   intros H. apply Q. rewrite E5. exact H.
 Qed.
 
@@ -401,24 +419,30 @@ Qed.
 Lemma tj_files_invalidate : forall h o, tj_files (invalidate_tj h o) = tj_files o.
 Proof. intros h [[snap ph v]|]; reflexivity. Qed.
 
-Lemma step_tagdel_ok : forall u h st, inv13 st -> inv13 (step capdb bad rf merge st (ATagDel u h)).
+Lemma step_tagdel_ok : forall h st, inv13 st -> inv13 (step capdb bad rf merge st (ATagDel h)).
 Proof.
-  intros u h st I. simpl. destruct (ntags st =? 0); [exact I|].
+  intros h st I. simpl.
   apply (invx_same [] st); auto; simpl; [apply tj_files_invalidate|apply (i_queue _ _ I)].
 Qed.
 
-Lemma step_tagupd_ok : forall u h st, inv13 st -> inv13 (step capdb bad rf merge st (ATagUpd u h)).
+Lemma step_tagupd_ok : forall h st, inv13 st -> inv13 (step capdb bad rf merge st (ATagUpd h)).
 Proof.
-  intros u h st I. simpl. destruct (ntags st =? 0); [exact I|].
-  apply start_tagging_ok.
+  intros h st I. simpl. apply start_converter_ok. apply start_tagging_ok.
   apply (invx_same [] st); auto; simpl; [apply tj_files_invalidate|apply (i_queue _ _ I)].
+Qed.
+
+Lemma step_env_ok : forall st a, inv13 st ->
+  match a with AConvSet | AConvRemove | AConvAdd | AEnvUnc _ | AEnvConvWork _ => True | _ => False end ->
+  inv13 (step capdb bad rf merge st a).
+Proof.
+  intros st a I H. destruct a; try contradiction; simpl; try exact I.
+  - apply start_converter_ok. exact I.
+  - apply (invx_same [] st); auto. apply (i_queue _ _ I).
+  - apply (invx_same [] st); auto. apply (i_queue _ _ I).
 Qed.
 
 Lemma step_tagadd_ok : forall st, inv13 st -> inv13 (step capdb bad rf merge st ATagAdd).
-Proof.
-  intros st I. simpl. apply start_tagging_ok.
-  apply (invx_same [] st); auto. simpl. apply (i_queue _ _ I).
-Qed.
+Proof. intros st I. simpl. apply start_tagging_ok. exact I. Qed.
 
 
 Lemma release_extra_ok : forall x st,
@@ -485,8 +509,8 @@ Proof.
   { subst created. destruct snap; simpl; split; try lia; intros u. destruct (N.eqb_spec (next_uid st) u); lia. }
   destruct Hnu as [Hn1 Hn2].
   assert (Eh : forall u, holders (mkState (indexes st) (used st) (map f_uid created ++ disk st) (queue st) (known st) (processed st)
-                  (next_cap st) (next_id st) (match snap with [] => next_uid st | _ => next_uid st + 1 end) (nunm st) (ntags st)
-                  (unc st) (dirty st) (ijob st) (Some (mkMJ off snap AtDone created)) (tjob st) (views st)) u = holders st u).
+                  (next_cap st) (next_id st) (match snap with [] => next_uid st | _ => next_uid st + 1 end) (nunm st) (cwork st)
+                  (unc st) (cjob st) (ijob st) (Some (mkMJ off snap AtDone created)) (tjob st) (views st)) u = holders st u).
   { intros u. hsimpl. rewrite Hj. reflexivity. }
   constructor; simpl; auto; fold created.
   - refine (create_ok created _ _ _ _ _ _ _ _ _ C).
@@ -523,7 +547,28 @@ Lemma step_complete_tag_ok : forall st, inv13 st -> inv13 (step capdb bad rf mer
 Proof.
   intros st I. simpl.
   destruct (tjob st) as [[snap [|] vv]|] eqn:Hj; try exact I.
-  apply release_extra_ok. apply start_merge_ok. apply start_tagging_ok.
+  apply release_extra_ok. apply start_merge_ok. apply start_converter_ok. apply start_tagging_ok.
+  destruct I as [C F P1 Q IS MS].
+  constructor; simpl; auto.
+  - refine (consistent_ext _ _ _ _ _ _ _ _ C); intros u; hsimpl; rewrite ?Hj; simpl; lia.
+  - intros u H. apply F. hsimpl. rewrite Hj in *. simpl in *. destruct H; [left|right; auto]. lia.
+Qed.
+
+Lemma step_start_conv_ok : forall st, inv13 st -> inv13 (step capdb bad rf merge st (AStart KConvert)).
+Proof.
+  intros st I. simpl.
+  destruct (cjob st) as [[snap [|]]|] eqn:Hj; try exact I.
+  destruct I as [C F P1 Q IS MS].
+  constructor; simpl; auto.
+  - refine (consistent_ext _ _ _ _ _ _ _ _ C); intros u; hsimpl; rewrite ?Hj; reflexivity.
+  - intros u H. apply F. hsimpl. rewrite Hj in *. exact H.
+Qed.
+
+Lemma step_complete_conv_ok : forall st, inv13 st -> inv13 (step capdb bad rf merge st (AComplete KConvert)).
+Proof.
+  intros st I. simpl.
+  destruct (cjob st) as [[snap [|]]|] eqn:Hj; try exact I.
+  apply release_extra_ok. apply start_merge_ok. apply start_converter_ok. apply start_tagging_ok.
   destruct I as [C F P1 Q IS MS].
   constructor; simpl; auto.
   - refine (consistent_ext _ _ _ _ _ _ _ _ C); intros u; hsimpl; rewrite ?Hj; simpl; lia.
@@ -552,7 +597,7 @@ Proof.
     constructor; simpl; auto.
     + (* release the replaced run, then lock the merged files *)
       set (hA := fun u => occ u (firstn off (indexes st)) + occ u (skipn (off + length snap) (indexes st))
-                          + occ_views u (views st) + occ u (ij_files (ijob st)) + occ u (tj_files (tjob st)) + occ u snap).
+                          + occ_views u (views st) + occ u (ij_files (ijob st)) + occ u (tj_files (tjob st)) + occ u (cj_files (cjob st)) + occ u snap).
       assert (CA : consistent (fst (release old (used st, disk st))) (snd (release old (used st, disk st))) hA
                               (fun u => occ u (pending_files st))).
       { refine (release_ok old _ _ _ _ _ _ C). intros u. subst hA. hsimpl. rewrite Hj. simpl. specialize (S3 u). lia. }
@@ -572,7 +617,7 @@ Lemma step_complete_import_ok : forall st, inv13 st -> inv13 (step capdb bad rf 
 Proof.
   intros st I. simpl.
   destruct (ijob st) as [[caps nx snap [|] cr un np]|] eqn:Hj; try exact I.
-  apply start_merge_ok. apply start_tagging_ok.
+  apply start_merge_ok. apply start_converter_ok. apply start_tagging_ok.
   match goal with |- invx [] (match ?qq with [] => ?s1 | _ => _ end) => set (st1 := s1) end.
   assert (I1 : inv13 st1).
   { destruct I as [C F P1 Q IS MS].
@@ -580,7 +625,7 @@ Proof.
     assert (Ep : forall u, occ u (pending_files st) = occ u cr + occ u mm).
     { intros u. unfold pending_files. rewrite Hj. simpl. fold mm. apply occ_app. }
     constructor; simpl; auto.
-    - set (hA := fun u => occ u (indexes st) + occ_views u (views st) + occ u (mj_files (mjob st)) + occ u (tj_files (tjob st))).
+    - set (hA := fun u => occ u (indexes st) + occ_views u (views st) + occ u (mj_files (mjob st)) + occ u (tj_files (tjob st)) + occ u (cj_files (cjob st))).
       assert (CA : consistent (fst (release snap (used st, disk st))) (snd (release snap (used st, disk st))) hA
                               (fun u => occ u (pending_files st))).
       { refine (release_ok snap _ _ _ _ _ _ C). intros u. subst hA. hsimpl. rewrite Hj. simpl. lia. }
@@ -604,7 +649,7 @@ Qed.
 
 Theorem step_inv13 : forall st a, inv13 st -> inv13 (step capdb bad rf merge st a).
 Proof.
-  intros st a I. destruct a as [ks|v|v|v| |u h|u h|k|k].
+  intros st a I. destruct a as [ks|v|v|v| |h|h| | | |n|b|k|k].
   - apply step_import_ok; auto.
   - apply step_view_ok; auto.
   - apply step_read_ok; auto.
@@ -612,8 +657,13 @@ Proof.
   - apply step_tagadd_ok; auto.
   - apply step_tagdel_ok; auto.
   - apply step_tagupd_ok; auto.
-  - destruct k; [apply step_start_import_ok|apply step_start_merge_ok|apply step_start_tag_ok]; auto.
-  - destruct k; [apply step_complete_import_ok|apply step_complete_merge_ok|apply step_complete_tag_ok]; auto.
+  - apply step_env_ok; simpl; auto.
+  - apply step_env_ok; simpl; auto.
+  - apply step_env_ok; simpl; auto.
+  - apply step_env_ok; simpl; auto.
+  - apply step_env_ok; simpl; auto.
+  - destruct k; [apply step_start_import_ok|apply step_start_merge_ok|apply step_start_tag_ok|apply step_start_conv_ok]; auto.
+  - destruct k; [apply step_complete_import_ok|apply step_complete_merge_ok|apply step_complete_tag_ok|apply step_complete_conv_ok]; auto.
 Qed.
 
 Lemma inv13_init : inv13 init.
@@ -641,9 +691,12 @@ Proof. intros. unfold start_tagging. destruct (tjob st); auto. destruct (unc st 
 
 Lemma indexes_start_merge : forall st, indexes (start_merge st) = indexes st.
 Proof.
-  intros. unfold start_merge. destruct (mjob st); auto. destruct (tjob st); auto.
+  intros. unfold start_merge. destruct (mjob st); auto. destruct (tjob st); auto. destruct (cjob st); auto.
   destruct (unc st =? 0); auto. destruct (find_merge (nunm st) (indexes st)); auto.
 Qed.
+
+Lemma indexes_start_converter : forall st, indexes (start_converter st) = indexes st.
+Proof. intros. unfold start_converter. destruct (cjob st); auto. destruct (cwork st); auto. Qed.
 
 Lemma indexes_launch_import : forall files st, indexes (launch_import files st) = indexes st.
 Proof. reflexivity. Qed.
@@ -666,23 +719,24 @@ Qed.
 
 Lemma step_uniq : forall st a, inv13 st -> uniq st -> uniq (step capdb bad rf merge st a).
 Proof.
-  intros st a I U. destruct a as [ks|v|v|v| |wu h|wu h|k|k]; simpl.
+  intros st a I U. destruct a as [ks|v|v|v| |h|h| | | |n|b|k|k]; simpl; auto.
   - destruct ks; auto. destruct (ascending _ _); auto.
     destruct (_ =? _)%nat; auto.
   - destruct (view_of v (views st)); auto.
   - destruct (view_of v (views st)) as [[|]|]; auto. destruct rf; auto.
   - destruct (view_of v (views st)); auto.
   - intros u. rewrite indexes_start_tagging. apply U.
-  - destruct (ntags st =? 0); auto.
-  - destruct (ntags st =? 0); auto. intros u. rewrite indexes_start_tagging. apply U.
+  - intros u. rewrite indexes_start_converter, indexes_start_tagging. apply U.
+  - intros u. rewrite indexes_start_converter. apply U.
   - destruct k.
     + destruct (ijob st) as [[caps nx snap [|] cr un np]|]; auto.
       destruct (from_pcap capdb bad (known st) caps snap) as [[es usednew] allk]. auto.
     + destruct (mjob st) as [[off snap [|] mg]|]; auto.
     + destruct (tjob st) as [[snap [|] vv]|]; auto.
+    + destruct (cjob st) as [[snap [|]]|]; auto.
   - destruct k.
     + destruct (ijob st) as [[caps nx snap [|] cr un np]|] eqn:Hj; auto.
-      intros u. rewrite indexes_start_merge, indexes_start_tagging.
+      intros u. rewrite indexes_start_merge, indexes_start_converter, indexes_start_tagging.
       assert (E : forall s1 : state, indexes match skipn np (queue st) with [] => s1 | _ :: _ => launch_import (skipn np (queue st)) s1 end = indexes s1).
       { intros. destruct (skipn np (queue st)); reflexivity. }
       rewrite E. simpl. rewrite occ_app.
@@ -704,7 +758,9 @@ Proof.
       pose proof (pending_not_held st u I P) as Z0.
       pose proof (i_pend1 _ _ I u) as P1. unfold pending_files in P1. rewrite Hj in P1. simpl in P1. rewrite occ_app in P1. lia.
     + destruct (tjob st) as [[snap [|] vv]|]; auto.
-      intros u. rewrite indexes_set_used_disk, indexes_start_merge, indexes_start_tagging. apply U.
+      intros u. rewrite indexes_set_used_disk, indexes_start_merge, indexes_start_converter, indexes_start_tagging. apply U.
+    + destruct (cjob st) as [[snap [|]]|]; auto.
+      intros u. rewrite indexes_set_used_disk, indexes_start_merge, indexes_start_converter, indexes_start_tagging. apply U.
 Qed.
 
 Theorem run_uniq : forall acts, uniq (fold_left (step capdb bad rf merge) acts init).
@@ -720,10 +776,10 @@ End Step13b.
 (* ---------------------------------------------------------------- statements of C13 *)
 Definition held_by_view (st : state) (f : file) : Prop := exists v s, In (v, s) (views st) /\ In f s.
 Definition held_by_job (st : state) (f : file) : Prop :=
-  In f (ij_files (ijob st)) \/ In f (mj_files (mjob st)) \/ In f (tj_files (tjob st)).
+  In f (ij_files (ijob st)) \/ In f (mj_files (mjob st)) \/ In f (tj_files (tjob st)) \/ In f (cj_files (cjob st)).
 Definition being_written (st : state) (u : N) : Prop := In u (map f_uid (pending_files st)).
 Definition quiescent (st : state) : Prop :=
-  ijob st = None /\ mjob st = None /\ tjob st = None /\ views st = [].
+  ijob st = None /\ mjob st = None /\ tjob st = None /\ cjob st = None /\ views st = [].
 
 Lemma in_occ_pos : forall f fs, In f fs -> 0 < occ (f_uid f) fs.
 Proof. intros. apply occ_pos_in. apply in_map. auto. Qed.
@@ -743,9 +799,10 @@ Lemma inv13_holder_on_disk : forall st f, inv13 st ->
   In f (indexes st) \/ held_by_view st f \/ held_by_job st f -> In (f_uid f) (disk st).
 Proof.
   intros st f I H. destruct (i_cons _ _ I) as (_ & B & _). apply B. left. simpl.
-  unfold holders. destruct H as [H|[(v & s & H1 & H2)|[H|[H|H]]]].
+  unfold holders. destruct H as [H|[(v & s & H1 & H2)|[H|[H|[H|H]]]]].
   - pose proof (in_occ_pos _ _ H). lia.
   - pose proof (in_occ_views_pos _ _ _ _ H1 H2). lia.
+  - pose proof (in_occ_pos _ _ H). lia.
   - pose proof (in_occ_pos _ _ H). lia.
   - pose proof (in_occ_pos _ _ H). lia.
   - pose proof (in_occ_pos _ _ H). lia.
@@ -768,9 +825,9 @@ Lemma inv13_quiescent : forall st u, inv13 st -> uniq st -> quiescent st ->
   (In u (disk st) <-> In u (map f_uid (indexes st))) /\
   cnt (used st) u = (if existsb (N.eqb u) (map f_uid (indexes st)) then 1 else 0).
 Proof.
-  intros st u I U (Q1 & Q2 & Q3 & Q4).
+  intros st u I U (Q1 & Q2 & Q3 & Q5 & Q4).
   assert (H : holders st u = occ u (indexes st)).
-  { unfold holders. rewrite Q1, Q2, Q3, Q4. simpl. lia. }
+  { unfold holders. rewrite Q1, Q2, Q3, Q4, Q5. simpl. lia. }
   assert (P : occ u (pending_files st) = 0).
   { unfold pending_files. rewrite Q1, Q2. reflexivity. }
   split.
